@@ -85,14 +85,15 @@ def _split_abs(cond):
         lhs, rhs = rel.lhs, rel.rhs
         if isinstance(lhs, sympy.Abs) and not rhs.has(sympy.Abs):
             a = lhs.args[0]
+            # The comparisons are not evaluated: z < z - 10 has to stay a comparison
             if isinstance(rel, sympy.StrictGreaterThan):
-                return sympy.Or(a > rhs, a < -rhs)
+                return sympy.Or(sympy.Gt(a, rhs, evaluate=False), sympy.Lt(a, -rhs, evaluate=False))
             if isinstance(rel, sympy.GreaterThan):
-                return sympy.Or(a >= rhs, a <= -rhs)
+                return sympy.Or(sympy.Ge(a, rhs, evaluate=False), sympy.Le(a, -rhs, evaluate=False))
             if isinstance(rel, sympy.StrictLessThan):
-                return sympy.And(a < rhs, a > -rhs)
+                return sympy.And(sympy.Lt(a, rhs, evaluate=False), sympy.Gt(a, -rhs, evaluate=False))
             if isinstance(rel, sympy.LessThan):
-                return sympy.And(a <= rhs, a >= -rhs)
+                return sympy.And(sympy.Le(a, rhs, evaluate=False), sympy.Ge(a, -rhs, evaluate=False))
         return rel
 
     return cond.replace(lambda e: isinstance(e, sympy.core.relational.Relational), split)
@@ -139,9 +140,12 @@ def _print_Piecewise(
         # absolute value is split into the two comparisons it stands for. sympy.simplify is
         # not an equivalence on conditions: ~((y > 0) & (y < 3)) becomes (y >= 3) | (y < 0),
         # G >= -1*0.25 becomes G > -0.25, Abs(sin(x)) is expanded on [0, pi] only
-        expr = sympy.Piecewise(
-            *[(arg.expr, _split_abs(arg.cond)) for arg in expr.args], evaluate=False
-        )
+        # (kept as a list of pairs: a new Piecewise would drop branches whose condition sympy
+        # decides while it is split, e.g. Abs(z) < z - 10)
+        pairs = [(arg.expr, _split_abs(arg.cond)) for arg in expr.args]
+        exprs = [printer._print(value) for value, _ in pairs]
+        conds = [print_cond(cond) for _, cond in pairs]
+        return tuple(conds), tuple(exprs)
 
     exprs = [printer._print(arg.expr) for arg in expr.args]
     conds = [print_cond(arg.cond) for arg in expr.args]
